@@ -102,7 +102,7 @@ def table_cases(draw, tier="quick", kind="pd"):
         # the first column is over-represented as target: with integer labels it is the falsy label 0, with the
         # "empty-first" labelling the falsy label ""
         case["target_index"] = draw(st.sampled_from([0, 0] + list(range(ncols))))
-        case["labels"] = draw(st.sampled_from(["int", "int", "str", "empty-first"]))
+        case["labels"] = draw(st.sampled_from(["int", "int", "str", "empty-first", "int-shifted", "int-permuted"]))
         case["index"] = draw(st.sampled_from(["default", "default", "reversed", "strings", "offset"]))
     else:
         case["func"] = draw(st.sampled_from(["file_compress", "file_expand"]))
@@ -176,7 +176,9 @@ def check_pd(case, stats: Stats) -> None:
     conv = None
     ncols = case["ncols"]
     scheme = case.get("labels") or ("int" if case["int_labels"] else "str")
-    labels = list(range(ncols)) if scheme == "int" else ([""] + [f"c{i}" for i in range(1, ncols)] if scheme == "empty-first" else [f"c{i}" for i in range(ncols)])
+    # integer labels need not coincide with positions (a frame after drop(columns=...), a re-ordered frame)
+    labels = {"int": list(range(ncols)), "int-shifted": [10 * (i + 1) for i in range(ncols)], "int-permuted": [(i + 1) % ncols for i in range(ncols)],
+              "empty-first": [""] + [f"c{i}" for i in range(1, ncols)]}.get(scheme, [f"c{i}" for i in range(ncols)])
     nrows = len(case["rows"])
     idx = {"default": None, "reversed": list(range(nrows - 1, -1, -1)), "strings": [f"r{k}" for k in range(nrows)], "offset": [10 + 3 * k for k in range(nrows)]}[case.get("index", "default")]
     df = pd.DataFrame([list(r) for r in case["rows"]], columns=labels, index=idx)
@@ -185,7 +187,7 @@ def check_pd(case, stats: Stats) -> None:
     if case["target"] == "none":
         tgt = None
     elif case["target"] == "new":
-        tgt = ncols + 5 if scheme == "int" else "target"
+        tgt = 1000 + ncols if scheme.startswith("int") else "target"
     else:
         tgt = labels[case["target_index"]]
     kw = dict(strict=case["strict"], passthrough=case["passthrough"])
